@@ -26,8 +26,8 @@ impl<'de> Deserialize<'de> for TimeStamp {
     fn deserialize<D: Deserializer<'de>>(
         de: D,
     ) -> ::std::result::Result<Self, D::Error> {
-        let form: &str = Deserialize::deserialize(de)?;
-        DateTime::parse_from_rfc3339(form)
+        let form: String = Deserialize::deserialize(de)?;
+        DateTime::parse_from_rfc3339(&form)
             .map(TimeStamp)
             .map_err(|e| DeserializeError::custom(format!("{:?}", e)))
     }
